@@ -29,6 +29,7 @@ import (
 	"sort"
 	"strconv"
 	"strings"
+	"sync"
 	"sync/atomic"
 	"testing"
 	"time"
@@ -56,7 +57,7 @@ var c04Registered = []string{"aud", "exp", "jti", "iat", "iss", "nbf", "sub"}
 func b64url(b []byte) string { return base64.RawURLEncoding.EncodeToString(b) }
 
 // mintToken builds the Authorization header value ("" = no header) for a token class.
-func mintToken(tok kit.M, cfg string) (string, error) {
+func mintToken(tok kit.M, cfg string, uid int) (string, error) {
 	key := kit.Str(tok["key"])
 	secret := c04Secrets[key]
 	if cfg == "same" && key == "prev" {
@@ -78,9 +79,9 @@ func mintToken(tok kit.M, cfg string) (string, error) {
 	switch kit.Str(tok["claims"]) {
 	case "none":
 	case "custom":
-		claims["uid"], claims["role"] = 42, "admin"
+		claims["uid"], claims["role"] = uid, "admin"
 	case "mixed":
-		claims["uid"], claims["role"] = 42, "admin"
+		claims["uid"], claims["role"] = uid, "admin"
 		claims["sub"], claims["iss"], claims["aud"], claims["jti"] = "subject", "issuer", "audience", "id-1"
 		if kit.Str(tok["time"]) != "noclaims" {
 			claims["iat"] = now - 60
@@ -184,7 +185,7 @@ func runJwtCase(c kit.Case, clock *kit.Clock) (v kit.Verdict) {
 			return c04Infra(c, "unknown step "+kit.Canon(st))
 		}
 		tok := st["tok"].(map[string]any)
-		hdr, err := mintToken(tok, cfg)
+		hdr, err := mintToken(tok, cfg, 42)
 		if err != nil {
 			return c04Infra(c, err.Error())
 		}
@@ -238,6 +239,153 @@ func runJwtCase(c kit.Case, clock *kit.Clock) (v kit.Verdict) {
 		}
 	}
 	return v
+}
+
+// ---------------------------------------------------------------- JWT, concurrent stage
+
+// TestVerifC04JwtConc replays behaviours of spec/AuthJwtGen.tla concurrently against ONE route
+// (one parser shared by all requests, as in a running server): goroutine g replays the cases
+// with Index % G == g, round after round, until VERIF_CONC_MIN requests have been judged.  Every
+// request is judged by its own step of the specification; tokens carry a uid that is unique per
+// request and the handler echoes the claims it sees, so "its own claims" is checked too.
+func TestVerifC04JwtConc(t *testing.T) {
+	logx.Disable()
+	cases, err := kit.LoadCases(kit.Env("VERIF_CASES", ""))
+	if err != nil {
+		t.Fatal(err)
+	}
+	rep, err := kit.NewReporter(kit.Env("VERIF_OUT", ""))
+	if err != nil {
+		t.Fatal(err)
+	}
+	defer rep.Close()
+	clock := kit.NewClock()
+	timex.SetVerifClock(clock.Now)
+	defer timex.SetVerifClock(nil)
+	if len(cases) == 0 {
+		t.Fatal("no cases")
+	}
+	cfg := kit.Str(cases[0].Steps[0]["cfg"])
+	srv, err := c04Server()
+	if err != nil {
+		t.Fatal(err)
+	}
+	var ranTotal atomic.Int64
+	h := func(w http.ResponseWriter, r *http.Request) {
+		ranTotal.Add(1)
+		w.Header().Set("X-Ran", "1")
+		for _, k := range append([]string{"uid", "role"}, c04Registered...) {
+			if val := r.Context().Value(k); val != nil {
+				w.Header().Set("X-Claim-"+k, fmt.Sprint(val))
+			}
+		}
+		w.WriteHeader(http.StatusOK)
+	}
+	var opt RouteOption
+	switch cfg {
+	case "transition":
+		opt = WithJwtTransition(c04Secrets["cur"], c04Secrets["prev"])
+	case "single":
+		opt = WithJwt(c04Secrets["cur"])
+	default:
+		t.Fatal("concurrent stage: unexpected cfg " + cfg)
+	}
+	srv.AddRoute(Route{Method: http.MethodGet, Path: "/c04/jwt", Handler: h}, opt)
+	if err := srv.ng.bindRoutes(srv.router); err != nil {
+		t.Fatal(err)
+	}
+	G := kit.EnvInt("VERIF_CONC_G", 8)
+	minReq := int64(kit.EnvInt("VERIF_CONC_MIN", 20000))
+	var judged atomic.Int64
+	var uidSeq atomic.Int64
+	var mu sync.Mutex
+	verdicts := make([]kit.Verdict, len(cases))
+	for i := range verdicts {
+		verdicts[i] = kit.Verdict{Case: cases[i].Index, OK: true}
+	}
+	fail := func(ci, step int, what, msg string) {
+		mu.Lock()
+		if verdicts[ci].OK {
+			verdicts[ci].OK, verdicts[ci].Step = false, step
+			verdicts[ci].Key = "C04:jwt:concurrent:" + what
+			verdicts[ci].Msg = msg
+		}
+		mu.Unlock()
+	}
+	var wg sync.WaitGroup
+	for g := 0; g < G; g++ {
+		wg.Add(1)
+		go func(g int) {
+			defer wg.Done()
+			for judged.Load() < minReq {
+				for ci := g; ci < len(cases); ci += G {
+					c := cases[ci]
+					if kit.Str(c.Steps[0]["cfg"]) != cfg {
+						fail(ci, 0, "harness", "mixed configurations in the concurrent stage")
+						continue
+					}
+					n := 0
+					for i, st := range c.Steps[1:] {
+						if kit.Str(st["op"]) != "jwt" {
+							continue // clock steps make no sense while other requests are in flight
+						}
+						tok := st["tok"].(map[string]any)
+						uid := int(uidSeq.Add(1))
+						hdr, err := mintToken(tok, cfg, uid)
+						if err != nil {
+							fail(ci, i+1, "harness", err.Error())
+							continue
+						}
+						req := httptest.NewRequest(http.MethodGet, "/c04/jwt", nil)
+						if hdr != "" {
+							req.Header.Set("Authorization", hdr)
+						}
+						rec := httptest.NewRecorder()
+						srv.router.ServeHTTP(rec, req)
+						n++
+						judged.Add(1)
+						ran := rec.Header().Get("X-Ran") == "1"
+						admitted := ran && rec.Code == http.StatusOK
+						denied := !ran && rec.Code == http.StatusUnauthorized
+						where := fmt.Sprintf("%d goroutines on one route (cfg=%s), token %s uid=%d: handler ran=%v status %d", G, cfg, tokClass(tok), uid, ran, rec.Code)
+						switch expect := kit.Str(st["expect"]); {
+						case !admitted && !denied:
+							fail(ci, i+1, "neither-admit-nor-401", where)
+						case expect == "deny" && admitted:
+							fail(ci, i+1, "admitted-invalid", where+"; specification: 401 and handler not run")
+						case expect == "admit" && denied:
+							fail(ci, i+1, "rejected-valid", where+"; specification: handler runs")
+						}
+						if admitted {
+							for _, k := range kit.List(st["visible"]) {
+								name := kit.Str(k)
+								want := map[string]string{"uid": strconv.Itoa(uid), "role": "admin"}[name]
+								if got := rec.Header().Get("X-Claim-" + name); got != want {
+									fail(ci, i+1, "wrong-claims", fmt.Sprintf("%s; claim %q in context = %q, the request's own token says %q", where, name, got, want))
+								}
+							}
+							for _, k := range kit.List(st["hidden"]) {
+								if got := rec.Header().Get("X-Claim-" + kit.Str(k)); got != "" {
+									fail(ci, i+1, "wrong-claims", fmt.Sprintf("%s; registered claim %q visible (%s)", where, kit.Str(k), got))
+								}
+							}
+						}
+					}
+					mu.Lock()
+					verdicts[ci].Steps += n
+					mu.Unlock()
+				}
+			}
+		}(g)
+	}
+	wg.Wait()
+	for _, v := range verdicts {
+		if v.Steps > 0 || !v.OK {
+			rep.Put(v)
+		}
+	}
+	rep.Count("conc.requests", int(judged.Load()))
+	rep.Count("conc.goroutines", G)
 }
 
 // ---------------------------------------------------------------- signature
